@@ -574,7 +574,7 @@ def run(chk):
                 Tchain = []
                 T = mm(Ud, Gp, Up)
                 for k_ in range(repeat):
-                    rec = np.array([[S.as_sc(1) / (s_[i] ** (2 ** k_) + s_[j] ** (2 ** k_)) for j in range(n)] for i in range(n)], dtype=object)
+                    rec = np.array([[S.as_sc(1) / (s_[j] ** (2 ** k_) + s_[i] ** (2 ** k_)) for j in range(n)] for i in range(n)], dtype=object)      # operand order of the code: s.view(-1,1,N) + s.view(-1,N,1)
                     Tk = np.array([[S.as_sc(T[i, j]) * rec[i, j] for j in range(n)] for i in range(n)], dtype=object)
                     Tchain.append((T, Tk, k_))
                     T = mm(Q, Tk, Q) if k_ < repeat - 1 else Tk          # the next round conjugates U Tk U^dag again: U^dag (U Tk U^dag) U = Q Tk Q
